@@ -61,7 +61,35 @@ def c01_scenarios():
                     post=PROBE + [swap("b1", [8]), {"op": "pollmelt", "q": "lq2", "status": ["succeeded"]}, {"op": "checkstate", "ys": ["b1"]},
                                   {"op": "balances"}])
     late["schedules"] = [["p1"] * 8 + ["p2"] * 6 + ["p3"] * 8]
+    late["lenient"] = True   # since the in-progress guard (68c3b64) the poll no longer takes these steps
     s.append(late)
+    # found by TLC on MintSteps (scenario melt-poll-melt-swap, Inv_Quiet): the same window with the second melt on the SAME
+    # quote; melt A holds the answer "failed" about its own attempt (a slow backend answer: lateanswers), a poll releases the
+    # inputs, melt C locks them again for the quote, A's clean-up cannot tell C's lock from its own.  Repaired in /repo
+    # (meltsInProgress); the schedule stays as a regression test and is lenient where the repaired code refuses a step.
+    late2 = scenario("melt-fails-late-cleanup-samequote", "C01", FUND + [mq(7)],
+                     [melt("lq1", "b1", pay=["failed"], status=["failed"]), {"op": "pollmelt", "q": "lq1", "status": ["failed"]},
+                      melt("lq1", "b1", pay=["pending"])],
+                     post=PROBE + [swap("b1", [8]), {"op": "pollmelt", "q": "lq1", "status": ["succeeded"]}, {"op": "checkstate", "ys": ["b1"]},
+                                   {"op": "balances"}])
+    late2["lateanswers"] = True
+    late2["lenient"] = True
+    late2["schedules"] = [["p1"] * 10 + ["p2"] * 7 + ["p3"] * 9 + ["p1"] * 4]
+    s.append(late2)
+    # two polls and a new attempt of the same quote while a payment is pending, with slow backend answers: an answer about
+    # the first attempt must not be applied to the second
+    ppm = scenario("pollmelt-pollmelt-remelt-late", "C01", pend,
+                   [{"op": "pollmelt", "q": "lq1", "status": ["failed"]}, {"op": "pollmelt", "q": "lq1", "status": ["failed"]},
+                    melt("lq1", "b1", pay=["pending"])],
+                   post=PROBE + [swap("b1", [8]), {"op": "pollmelt", "q": "lq1", "status": ["succeeded"]}, {"op": "checkstate", "ys": ["b1"]},
+                                 {"op": "balances"}])
+    ppm["lateanswers"] = True
+    if tier() != "thorough":
+        # quick: the one schedule in which poll A's answer is still on its way while poll B and the new attempt run (688
+        # interleavings when enumerated, thorough tier); lenient, because the unchanged code holds the lock across the lookup
+        ppm["lenient"] = True
+        ppm["schedules"] = [["p1"] * 3 + ["p2"] * 7 + ["p3"] * 9]
+    s.append(ppm)
     if tier() == "thorough":
         s.append(scenario("swap-swap-swap", "C01", FUND, [swap("b1", [8]), swap("b1", [4, 4]), swap("b1", [2, 2, 4])]))
         s.append(scenario("swap-swap-melt", "C01", FUND + [mq(7)], [swap("b1", [8]), swap("b1", [4, 4]), melt("lq1", "b1")]))
@@ -226,7 +254,22 @@ def check(prop, scns, level="model_checking"):
         print("  finding: %s" % key)
         viol.append(key)
     complete = all(s["complete"] for s in idx["summary"])
+    # layer 2: MintSteps (the mint at storage / Lightning call granularity) model-checked exhaustively, and every recorded call
+    # sequence of the real mint validated against it
+    import steps
+    layer2 = steps.design_check(sd, with_crash=False)
+    by_tr = {}
+    for sh in shards:
+        for ex in load_shard(os.path.join(out, sh)):
+            by_tr[ex[0]["tr"]] = ex
+    conf = steps.conformance(sd, scns, idx, by_tr)
+    if conf["drift"]:
+        print("NOTE: %d of %d recorded call sequences are not behaviours of MintSteps (model drift, not a verdict): %s" % (
+            conf["drift"], conf["executions"], [(r["scenario"], r["drift"][:1]) for r in conf["per_scenario"] if r["drift_n"]][:4]))
+    states += layer2["distinct_states"]
+    gen += layer2["states_generated"]
     cov = {
+        "layer2_model": layer2, "layer2_conformance": conf,
         "states": max(states, 1), "transitions": max(gen, 1), "traces_validated_against_impl": total_exec,
         "samples": [{"scenario": scns[0], "schedule": idx["index"][0]["schedule"] if idx["index"] else []},
                     {"recorded": [{"ev": e["ev"], "proc": e.get("proc"), "c": e["c"], "t": e["t"], "r": e["r"]} for e in (sample or [])][:8]}],
